@@ -595,6 +595,59 @@ func checkErrorsExaminedOnEveryPath(p *Program, r *Result, pkgs []string) {
 					if pa.End != "return" {
 						continue
 					}
+					// a failure that was found is reported: on a path that took the non-nil side of
+					// a nil test of E — and looked at E in no other way — the function does not
+					// return an explicit nil error, unless E was stored or handed to a call
+					if fei := errorResultIndex(fn.Signature); fei >= 0 {
+						if isNil, known := pa.NilOnPath(errv, len(pa.Blocks)); known && !isNil && isNilConst(stripConv(pa.Resolve(resultsOf(pa.Last.(*ssa.Return))[fei]))) {
+							onlyNilTests := true
+							for i, blk := range pa.Blocks {
+								if i >= len(pa.Edge) || pa.Edge[i] < 0 {
+									continue
+								}
+								ifi, ok := blk.Instrs[len(blk.Instrs)-1].(*ssa.If)
+								if !ok || !valueMentions(ifi.Cond, carries, 0) {
+									continue
+								}
+								if x, _, isTest := nilTestOf(blk); !isTest || !carries[stripConv(pa.ResolveAt(x, i))] && !carries[x] {
+									onlyNilTests = false
+								}
+							}
+							handed := false
+							for _, pin := range pa.Instrs() {
+								if st, ok := pin.(*ssa.Store); ok && carries[st.Val] {
+									handed = true
+								}
+								// the failure is recorded as a (new) error in sticky state
+								if st, ok := pin.(*ssa.Store); ok && isErrorType(st.Val.Type()) && p.definitelyNonNil(stripConv(pa.Resolve(st.Val)), 0) {
+									if _, isField := st.Addr.(*ssa.FieldAddr); isField {
+										handed = true
+									}
+								}
+								// the operation is tried again (the same callee) and that attempt succeeded
+								if c2, ok := pin.(*ssa.Call); ok && c2 != c && tb.resolvedCalleeName(&c2.Call) == name && c2.Referrers() != nil {
+									for _, rr := range *c2.Referrers() {
+										if ex, ok := rr.(*ssa.Extract); ok && isErrorType(ex.Type()) {
+											if isNil, known := pa.NilOnPath(ex, len(pa.Blocks)); known && isNil {
+												handed = true
+											}
+										}
+									}
+								}
+								if pc, ok := pin.(ssa.CallInstruction); ok && pin != ssa.Instruction(c) {
+									for _, a := range pc.Common().Args {
+										if carries[a] {
+											handed = true
+										}
+									}
+								}
+							}
+							if onlyNilTests && !handed {
+								bad = "path " + pa.String() + " found the error of " + short(name) + " to be non-nil and returns a nil error at " + r.pos(pa.Last)
+								break
+							}
+						}
+					}
 					// only the part of the path after the call matters; conditions before it in the
 					// same block cannot exist (the call is in the first block of the path)
 					examined := false
